@@ -65,7 +65,7 @@ func (s StringSchema) Unserialize(data any) (any, error) {
 func (s StringSchema) UnserializeType(data any) (string, error) {
 	unserialized, err := stringInputMapper(data)
 	if err != nil {
-		return "", err
+		return "", asConstraintError(err)
 	}
 	return unserialized, s.ValidateType(unserialized)
 }
